@@ -73,6 +73,23 @@ def r04_2(ctx):
             r.ob("namespaced name: the argument is the part of the local name before the first `_`", arg.startswith("Some(splitted.next()"), C.mloc(dir_, tup), "argument = %s" % arg[:60])
             r.ob("namespaced name: the directive name comes from the namespace", "ns.sym" in name_e, C.mloc(dir_, tup), name_e[:80])
         r.ob("%s: only the first letter is lower-cased" % ps.split("(")[0], name_e.startswith("lower_first(") or "to_ascii_lowercase" not in name_e, C.mloc(dir_, tup), name_e[:80])
+    # the name that reaches the directive is the one this head produced: nothing re-derives it on the way (camel-casing, trimming, ..)
+    from .hirflow import HirIndex
+    idx_d = HirIndex(dir_)
+    k_n = 0
+    for node in walk(dir_["body"]):
+        if node.get("k") == "Struct" and (node.get("adt") or "") == "directive::NormalDirective":
+            ne = {f["name"]: f["e"] for f in node["fields"]}.get("name")
+            x_ = strip_transparent(ne) if ne is not None else None
+            while x_ is not None and x_.get("k") in ("Call", "MethodCall") and re.search(r"(::from|::into|::to_string|::as_str|::as_ref|::to_owned)$", x_.get("callee") or ""):
+                x_ = strip_transparent(x_["recv"] if x_.get("k") == "MethodCall" else (x_["args"][0] if x_.get("args") else None)) if (x_.get("k") == "MethodCall" or x_.get("args")) else None
+            lo = local_of(x_) if x_ is not None else None
+            bd = idx_d.binding.get(lo[1]) if lo else None
+            k_n += 1
+            from_head = bd is not None and bd.get("kind") == "let" and bd.get("init") is not None and strip_transparent(bd["init"]) is head
+            r.ob("the directive's name is the one the head match produced" + ("" if k_n == 1 else " #%d" % k_n), from_head, C.mloc(dir_, node),
+                 "bound by the (name, argument, suffixes) destructuring" if from_head else
+                 "`name` is rebound before it reaches the directive (`%s`): the resolved name is no longer the written one" % (expr_str(bd["init"])[:70] if bd and bd.get("init") is not None else "?"))
     # lower_first itself
     for b in ctx.facts.hir:
         if b["crate"] == VISITOR_CRATE and b["path"].startswith("directive::") and b["inputs"] == ["&str"] and b["output"] == "alloc::string::String":
